@@ -335,6 +335,13 @@ func cmdVerify(args []string) int {
 		}
 		nd, nf := 0, 0
 		for _, o := range r.Obls {
+			if o.Kind == "reach" {
+				// branch probes are diagnostics: shown, never counted
+				if o.Status != "cover-ok" {
+					fmt.Printf("  %-14s %-70s paths=%d (branch not reachable in the model)\n", "note", o.Name, o.Paths)
+				}
+				continue
+			}
 			ok := o.Status == "discharged" || o.Status == "trivial" || o.Status == "cover-ok"
 			if ok {
 				nd++
